@@ -134,6 +134,11 @@ struct json_object *json_object_from_fd_ex(int fd, int in_depth)
 	}
 
 	obj = json_tokener_parse_ex(tok, pb->buf, printbuf_length(pb));
+	/* The end of the data also ends a number or literal that nothing follows:
+	 * hand the tokener the terminating NUL that printbuf keeps behind the contents.
+	 */
+	if (obj == NULL && json_tokener_get_error(tok) == json_tokener_continue)
+		obj = json_tokener_parse_ex(tok, pb->buf + printbuf_length(pb), 1);
 	if (obj == NULL)
 		_json_c_set_last_err("json_tokener_parse_ex failed: %s\n",
 		                     json_tokener_error_desc(json_tokener_get_error(tok)));
